@@ -367,12 +367,20 @@ class C19Session:
         try:
             res = self._call(t)
         except self.Inputerror as exc:
-            return {"outcome": "Inputerror", "msg": str(exc)[:120]}
+            return ("done", {"outcome": "Inputerror", "msg": str(exc)[:120]})
         except Exception as exc:  # noqa: BLE001
             if str(exc).startswith("injected at"):
                 raise
-            return {"outcome": type(exc).__name__, "msg": str(exc)[:200]}
+            return ("done", {"outcome": type(exc).__name__, "msg": str(exc)[:200]})
         self.walls[st["t"]] = runtime.REAL_PERF() - t0
+        return ("raw", res)
+
+    def post_req(self, st, raw):
+        """artefact extraction: runs outside the fault-injection window"""
+        tag, res = raw
+        if tag == "done":
+            return res
+        t = cat.BY_ID[st["t"]]
         if t.get("fresh"):
             self._check_fresh(res, t)
         a = self.art.of(res, t)
@@ -415,8 +423,7 @@ class C19Session:
                 self.counts["H3"] += 1
             if a["fp"] != ref["fp"]:
                 self.viol("value", f"{tid}: value fingerprint {a['fp']} differs from the "
-                          f"pristine session's {ref['fp']}; text: {a.get('full')} | pristine: "
-                          f"{ref.get('full')}", template=tid)
+                          f"pristine session's {ref['fp']}; text: {a.get('full')}", template=tid)
                 return
         if a.get("skel") is not None and ref.get("skel") is not None:
             self.counts["H1_struct"] += 1
@@ -433,8 +440,7 @@ class C19Session:
             self.counts["H1_text"] += 1
             if a["text"] != ref["text"]:
                 self.viol("text", f"{tid}: text after substitute_contracted differs from the "
-                          f"pristine session; got: {a.get('full')} | pristine: "
-                          f"{ref.get('full')}", template=tid)
+                          f"pristine session; got: {a.get('full')}", template=tid)
 
     def ref_names(self):
         from .runtime import DEFAULT_NAMES
@@ -452,7 +458,7 @@ class C19Session:
     def do_step(self, st):
         op = st["op"]
         if op == "req":
-            return self.do_req(st)
+            return self.post_req(st, self.do_req(st))
         if op == "bad":
             return self.do_bad(st)
         if op == "reg.generic":
@@ -499,7 +505,7 @@ class C19Session:
                 if self.injector is None:
                     self.injector = runtime.Injector()
                 mode = self.params.get("abort_mode", "state")
-                n = runtime.count_in_twin(self.injector, mode, lambda: self.do_step(st),
+                n = runtime.count_in_twin(self.injector, mode, lambda: self.do_req(st),
                                           timeout=200)
                 if n <= 0:
                     self.fault_missed += 1
@@ -509,12 +515,12 @@ class C19Session:
                     k = min(max(k, 1), n)
                     exc = KeyboardInterrupt if ab["kind"] == "kbi" else MemoryError
                     nv = len(self.violations)
-                    fired, res, err = self.injector.run(mode, lambda: self.do_step(st), k, exc)
+                    fired, res, err = self.injector.run(mode, lambda: self.do_req(st), k, exc)
                     if fired is None:
                         self.fault_missed += 1
                         if err is not None:
                             raise err
-                        out = res
+                        out = self.post_req(st, res)
                     else:
                         self.violations[nv:] = [v for v in self.violations[nv:]
                                                 if v["class"] == "registry"
@@ -529,13 +535,13 @@ class C19Session:
                             # the fault was swallowed inside the library and the request
                             # completed: it is held to the full oracle like any other
                             ev["abort"]["swallowed"] = True
-                            out = res
+                            out = self.post_req(st, res)
             else:
                 out = self.do_step(st)
             if out is not None:
                 if st["op"] == "req":
                     ev["a"] = {k: out.get(k) for k in ("outcome", "fp", "text", "skel",
-                                                      "nterms", "kind")}
+                                                      "nterms", "kind", "keys")}
                     self.compare(st, out)
                     if self.job.get("want_full"):
                         ev["full"] = out.get("full")
